@@ -1,8 +1,12 @@
 /-
-  C15 — what "declared" means for an EDIF event stream, without reference to the resolver.
+  C15 — EDIF scoping rules and what a correct resolution is, written without reference to the resolver:
+  a positions-only fold for WHAT IS VISIBLE at a point of the stream (`visAt`), and declarative
+  conditions on a resolution (`RefOk`) that bind it to that scope and to the first matching declaration.
 -/
 import Spydr.IO.ModelResolve
 namespace Spydr.IO.Resolve
+
+/-! ### "declared somewhere in the file" (the coarse notion) -/
 
 def declaredLibs (evs : List Ev) : List String :=
   evs.filterMap (fun e => match e with | .lib i => some i.toLower | _ => none)
@@ -42,20 +46,108 @@ def refPositions : Nat → List Ev → List Nat
   | _, [] => []
   | k, e :: r => if isRef e then k :: refPositions (k + 1) r else refPositions (k + 1) r
 
-/-- the resolution `r` of the reference at position `k` points at declarations of this very stream
-    that bear the referenced identifiers and come earlier -/
+/-! ### the scoping rules: which declarations are visible, by position -/
+
+structure Vis where
+  /-- closed libraries, in order: (position of `lib`, positions of its cells) -/
+  done : List (Nat × List Nat)
+  /-- the open library and its CLOSED cells -/
+  cur : Option (Nat × List Nat)
+  /-- the open cell and the instances declared in it so far -/
+  cell : Option (Nat × List Nat)
+  deriving DecidableEq, Repr
+
+def Vis.empty : Vis := ⟨[], none, none⟩
+
+/-- one event; `none` = the event may not occur here (ill-nested stream) -/
+def visStep (pos : Nat) (v : Vis) : Ev → Option Vis
+  | .lib _ => match v.cur, v.cell with
+    | none, none => some { v with cur := some (pos, []) }
+    | _, _ => none
+  | .endLib => match v.cur, v.cell with
+    | some l, none => some { v with done := v.done ++ [l], cur := none }
+    | _, _ => none
+  | .cell _ _ _ => match v.cur, v.cell with
+    | some _, none => some { v with cell := some (pos, []) }
+    | _, _ => none
+  | .endCell => match v.cur, v.cell with
+    | some l, some c => some { v with cur := some (l.1, l.2 ++ [c.1]), cell := none }
+    | _, _ => none
+  | .inst _ _ _ _ => match v.cur, v.cell with
+    | some _, some c => some { v with cell := some (c.1, c.2 ++ [pos]) }
+    | _, _ => none
+  | .portRef _ _ _ => match v.cur, v.cell with
+    | some _, some _ => some v
+    | _, _ => none
+  | .design _ _ => match v.cur, v.cell with
+    | none, none => some v
+    | _, _ => none
+
+def visFrom : Nat → Vis → List Ev → Option Vis
+  | _, v, [] => some v
+  | pos, v, e :: r => match visStep pos v e with
+    | none => none
+    | some v' => visFrom (pos + 1) v' r
+
+/-- what is visible just before the event at position `k` -/
+def visAt (evs : List Ev) (k : Nat) : Option Vis := visFrom 0 Vis.empty (evs.take k)
+
+/-- properly nested: libraries at top level, cells in libraries, instances / portRefs in cells, design
+    at top level -/
+def wellNested (evs : List Ev) : Prop := ∀ k, k ≤ evs.length → (visAt evs k).isSome = true
+
+/-! ### what a correct resolution is -/
+
+def LibNamed (evs : List Ev) (name : String) (p : Nat) : Prop := ∃ i, evs[p]? = some (.lib i) ∧ eqI i name = true
+def CellNamed (evs : List Ev) (name : String) (d : Nat) : Prop :=
+  ∃ i v ps, evs[d]? = some (.cell i v ps) ∧ eqI i name = true
+def InstNamed (evs : List Ev) (name : String) (a : Nat) : Prop :=
+  ∃ i v c l, evs[a]? = some (.inst i v c l) ∧ eqI i name = true
+def ViewIs (evs : List Ev) (view : String) (d : Nat) : Prop :=
+  ∃ i v ps, evs[d]? = some (.cell i v ps) ∧ eqI v view = true
+
+/-- `d` is the first element of `l` with property `P` -/
+def FirstIn {β : Type} (P : β → Prop) (l : List β) (d : β) : Prop :=
+  ∃ pre post, l = pre ++ d :: post ∧ P d ∧ ∀ x ∈ pre, ¬ P x
+
+/-- the cells a `cellRef` with this `libraryRef` is looked up in: the current library when there is no
+    libraryRef or it names the current library, else the first closed library of that name -/
+def LibCells (evs : List Ev) (v : Vis) (lo : Option String) (cells : List Nat) : Prop :=
+  ∃ p cs, v.cur = some (p, cs) ∧
+    match lo with
+    | none => cells = cs
+    | some ln => (LibNamed evs ln p ∧ cells = cs) ∨
+        (¬ LibNamed evs ln p ∧ ∃ q, FirstIn (fun L : Nat × List Nat => LibNamed evs ln L.1) v.done (q, cells))
+
+/-- the instance at `k` refers to the cell declared at `d` -/
+def CellRefOk (evs : List Ev) (k d : Nat) : Prop :=
+  ∃ iid iv co lo v, evs[k]? = some (.inst iid iv co lo) ∧ visAt evs k = some v ∧ ViewIs evs iv d ∧
+    match co with
+    | none => ∃ is, v.cell = some (d, is)
+    | some cn => ∃ cells, LibCells evs v lo cells ∧ FirstIn (CellNamed evs cn) cells d
+
+/-- `port` is the index of the first port named `pid` -/
+def FirstPort (ps : List PortDecl) (pid : String) (port : Nat) (pd : PortDecl) : Prop :=
+  ps[port]? = some pd ∧ eqI pd.ident pid = true ∧ ∀ j q, j < port → ps[j]? = some q → eqI q.ident pid = false
+
+/-- the resolution `r` of the reference at position `k` is the one the scoping rules prescribe -/
 def RefOk (evs : List Ev) (k : Nat) : RRef → Prop
-  | .cell d =>
-      ∃ iid iv co lo id v ps, evs[k]? = some (.inst iid iv co lo) ∧ evs[d]? = some (.cell id v ps) ∧ d < k ∧
-        eqI v iv = true ∧ ∀ cn, co = some cn → eqI id cn = true
+  | .cell d => CellRefOk evs k d
   | .pin c port bit ia =>
-      ∃ pid m io id v ps pd, evs[k]? = some (.portRef pid m io) ∧ evs[c]? = some (.cell id v ps) ∧ c < k ∧
-        ps[port]? = some pd ∧ eqI pd.ident pid = true ∧ bit = m.getD 0 ∧ bit < pd.width ∧
+      ∃ pid m io v cc is, evs[k]? = some (.portRef pid m io) ∧ visAt evs k = some v ∧ v.cell = some (cc, is) ∧
         (match io, ia with
-         | none, none => True
-         | some iname, some a => a < k ∧ ∃ iid iv co lo, evs[a]? = some (.inst iid iv co lo) ∧ eqI iid iname = true
-         | _, _ => False)
+         | none, none => c = cc                                  -- a port of the ENCLOSING cell
+         | some iname, some a =>                                  -- a port of the cell that instance `a`,
+             FirstIn (InstNamed evs iname) is a ∧ CellRefOk evs a c   -- declared in the same contents, refers to
+         | _, _ => False) ∧
+        ∃ ps pd, portsOf evs c = some ps ∧ FirstPort ps pid port pd ∧ bit = m.getD 0 ∧ bit < pd.width
   | .top d =>
-      ∃ cn ln id v ps, evs[k]? = some (.design cn ln) ∧ evs[d]? = some (.cell id v ps) ∧ d < k ∧ eqI id cn = true
+      ∃ cn ln v q cells, evs[k]? = some (.design cn ln) ∧ visAt evs k = some v ∧
+        FirstIn (fun L : Nat × List Nat => LibNamed evs ln L.1) v.done (q, cells) ∧
+        FirstIn (CellNamed evs cn) cells d
+
+/-- every reference has a resolution the scoping rules allow -/
+def wellScoped (evs : List Ev) : Prop :=
+  wellNested evs ∧ ∀ k e, evs[k]? = some e → isRef e = true → ∃ r, RefOk evs k r
 
 end Spydr.IO.Resolve
